@@ -260,12 +260,12 @@ func execAddr(c Case) string {
 		f2 = f2 && ad.IsForNet(&net)
 		d, err := bchutil.DecodeAddress(net.CashAddressPrefix+":"+str, &net)
 		if err != nil {
-			return b2s(f1) + " " + b2s(f2) + " E"
+			return hs(str) + " " + b2s(f1) + " " + b2s(f2) + " E"
 		}
 		f3 := d.IsForNet(&net)
 		re := d.EncodeAddress()
 		f4 := d.IsForNet(&net)
-		return b2s(f1) + " " + b2s(f2) + " " + b2s(f3) + " " + b2s(f4) + " " + b2s(re == str && !d.IsForNet(&chaincfg.TestNet3Params))
+		return hs(str) + " " + b2s(f1) + " " + b2s(f2) + " " + b2s(f3) + " " + b2s(f4) + " " + b2s(re == str && !d.IsForNet(&chaincfg.TestNet3Params))
 	case "pk2pkh": // pk2pkh <net> <serialized pubkey>
 		pk, err := bchutil.NewAddressPubKey(unhx(a[1]), netIdx(a[0]))
 		if err != nil {
